@@ -166,6 +166,14 @@ class Outcome(object):
                 and isinstance(self.reason, int) and int(self.reason) in SEC_REASONS)
 
 
+def _blk_tuple(b):
+    ''' (type, number, BTSD) of a delivered block; a corrupted bundle may carry null fields '''
+    try:
+        return (int(b.type_code), int(b.block_num), bytes(b.getfieldval('btsd') or b''))
+    except Exception:
+        return (None, None, b'')
+
+
 class Receiver(object):
     ''' Real receiving agent with a probe step just before the application steps (order 30). '''
 
@@ -219,8 +227,7 @@ class Receiver(object):
                 out.reports.append('undecodable-report')
         out.delivered_blocks = None
         if out.delivered:
-            out.delivered_blocks = [(int(b.type_code), int(b.block_num), bytes(b.getfieldval('btsd') or b''))
-                                    for b in self._probe[0].bundle.blocks]
+            out.delivered_blocks = [_blk_tuple(b) for b in self._probe[0].bundle.blocks]
         return out
 
 
@@ -1034,6 +1041,24 @@ import hashlib  # noqa: E402
 import hmac as _hmac  # noqa: E402
 
 
+_MODEL_CACHE = {}
+
+
+def model(chk, reqs):
+    ''' chk.driver with a memo (the driver is a fresh process per call). '''
+    import json as _json
+    keys = [_json.dumps(r, sort_keys=True) for r in reqs]
+    miss = [i for i, k in enumerate(keys) if k not in _MODEL_CACHE]
+    if miss:
+        for i, ans in zip(miss, chk.driver([reqs[i] for i in miss])):
+            _MODEL_CACHE[keys[i]] = ans
+        if len(_MODEL_CACHE) > 20000:
+            for k in list(_MODEL_CACHE)[:10000]:
+                if k not in keys:
+                    del _MODEL_CACHE[k]
+    return [_MODEL_CACHE[k] for k in keys]
+
+
 def enc_canonical(b):
     ''' dict (model JSON of a canonical block) → octets, CRC computed here. '''
     arr = [b['type'], b['num'], b['flags'], b['crcType'], bytes.fromhex(b['btsd'])]
@@ -1091,7 +1116,7 @@ def craft_bib(chk, ib, key, targets, sec_num, scope=None, kid=b'mac', source=Non
                      'ctx': dict(ssrc=source, scope=sc, primary=ib.primary, blocks=blocks, secBlk=sec, tgt=tgt,
                                  addlProt=addl_prot.hex())})
     results = []
-    for ans in chk.driver(reqs):
+    for ans in model(chk, reqs):
         tag = _hmac.new(key, bytes.fromhex(ans['input']), hashlib.sha256).digest()
         results.append([(17, cbor2.dumps([PROT_HMAC256, {4: kid}, None, tag]))])
     params = []
@@ -1114,7 +1139,7 @@ def craft_bcb(chk, ib, key, targets, sec_num, ivs, scope=None, kid=b'enc', sourc
     results = []
     for t, iv in zip(targets, ivs):
         tgt = [b for b in blocks if b['num'] == t][0]
-        ans = chk.driver([{'op': 'sec.encinput', 'context': 'Encrypt0', 'prot': PROT_A256GCM.hex(),
+        ans = model(chk, [{'op': 'sec.encinput', 'context': 'Encrypt0', 'prot': PROT_A256GCM.hex(),
                            'ctx': dict(ssrc=source, scope=sc, primary=ib.primary, blocks=blocks, secBlk=sec, tgt=tgt,
                                        addlProt='')}])[0]
         ct = AESGCM(key).encrypt(iv, bytes.fromhex(tgt['btsd']), bytes.fromhex(ans['input']))
@@ -1182,8 +1207,10 @@ class TargetObserver(object):
 OBSERVER = TargetObserver()
 
 
-def chain_request(ib, accept, orc, plain=(), quirks='current', extract_bad=()):
-    ''' `sec.chain` request from an independently decoded bundle. '''
+def chain_request(ib, accept, orc, plain=(), quirks=None, extract_bad=()):
+    ''' `sec.chain` request from an independently decoded bundle. `quirks`: "current" = `Quirks.current` of
+    Model/SecChain.lean (the code under verification); VERIF_C12_QUIRKS overrides (to try a patched /repo). '''
+    quirks = quirks or os.environ.get('VERIF_C12_QUIRKS', 'current')
     blocks = []
     for b in ib.blocks:
         ent = dict(type=b['type'], num=b['num'], btsd=b['btsd'], asb=None)
@@ -1305,7 +1332,7 @@ def campaign(chk, prop, conf):
                     chk.violation('%s:key-failure-not-marked-security' % prop, 'key failure not marked as a security failure', r2)
                 elif wants_deletion_report(ib) and not any(r in SEC_REASONS for r in o2.reports):
                     chk.violation('%s:failure-not-reported' % prop, 'no status report with a security reason', r2)
-            if len(data) <= (230 if quick else 420):
+            if len(data) <= (280 if quick else 420):
                 flip_pool.append((mode, accept, data))
 
     # ---- 2. harness-made blocks with other AAD scopes (MAC / AEAD input from the Lean model)
@@ -1345,12 +1372,16 @@ def campaign(chk, prop, conf):
         chk.cov['traces_validated_against_impl'] += 1
         if conf and accept and [b for b in out.delivered_blocks if b[1] == 1][0][2] != payload:
             chk.violation('C16:plaintext-not-recovered', 'accepting receiver did not recover the exact plaintext', replay)
-        if len(data) <= (230 if quick else 420):
+        if len(data) <= (280 if quick else 420):
             crafted.append(('crafted:%s' % json_scope(scope), accept, data))
 
     # ---- 3. every single-bit flip through the real receiver
     n_flip = (3, 5) if quick else (40, 60)
-    todo = flip_pool[:n_flip[0]] + crafted[:n_flip[1]]
+    by_mode = {}
+    for item in flip_pool:
+        by_mode.setdefault(item[0], []).append(item)
+    inter = [x for grp in zip(*[by_mode[m] for m in sorted(by_mode)]) for x in grp] if by_mode else []
+    todo = inter[:n_flip[0]] + crafted[:n_flip[1]]
     if not quick:
         rng.shuffle(todo)
     budget = 110 if quick else 780
